@@ -106,9 +106,19 @@ def frame(b):
   return ethernet(src=EthAddr(b"\1\2\3\4\5\6"), dst=EthAddr(b"\6\5\4\3\2\1"), type=0x9000, payload=b"x" * 46)
 
 
+def _fragments_by_the_spec(I, st, args, kws):
+  """precondition of the extraction callee as the lookup uses it: OpenFlow 1.0 matches IP fragments with tp_src = tp_dst = 0,
+  which from_packet does only when asked (spec_frags = True; its default is the Open vSwitch behaviour).  Added 2026-09-25
+  after seeded change C03_8 dropped the argument."""
+  a = [x for x in args if not isinstance(x, type)]          # (cls,) packet, in_port[, spec_frags]
+  v = kws.get("spec_frags", a[2] if len(a) > 2 else False)
+  return v is True
+
+
 LOOKUP_CALLS = {"pox.openflow.libopenflow_01:ofp_match.from_packet":
-                CallSpec("opaque", returns=lambda I, st, a, k: st.alloc("obj", object, {}),
-                         envelope="from_packet returns the frame's header fields (contract: c03_extract units)")}
+                CallSpec("opaque", returns=lambda I, st, a, k: st.alloc("obj", object, {}), requires=_fragments_by_the_spec,
+                         envelope="from_packet returns the frame's header fields (contract: c03_extract units, which call "
+                                  "it with spec_frags=True - required at this call site)")}
 
 
 @unit(P, target=FT + "FlowTable.entry_for_packet")
